@@ -484,7 +484,7 @@ func (ex *Exec) zero(t types.Type) Value {
 }
 
 func typeTag(t types.Type) string {
-	if n, ok := t.(*types.Named); ok {
+	if n, ok := types.Unalias(t).(*types.Named); ok {
 		return n.Obj().Name()
 	}
 	return ""
